@@ -343,6 +343,31 @@ class View(ArrBase):
         return 'View(%r, %s)' % (self.base, self.shape)
 
 
+class AxisView(ArrBase):
+    """a[..., np.newaxis, ...]: the same data seen with extra unit axes -- numpy returns a VIEW, so in-place operations on it change the array it was taken from"""
+
+    def __init__(self, inner, res_axes):
+        self.inner, self.res_axes = inner, tuple(res_axes)
+        self.shape = tuple(1 if ax is None else inner.shape[ax] for ax in self.res_axes)
+        self.dtype = inner.dtype
+
+    def _outer(self, iidx):
+        return [0 if ax is None else iidx[ax] for ax in self.res_axes]
+
+    def snap(self):
+        f, ra = self.inner.snap(), self.res_axes
+        return memo(lambda *idx: f(*[idx[i] for i, ax in enumerate(ra) if ax is not None]))
+
+    def update(self, cond, val):
+        if cond is None:
+            self.inner.update(None, lambda *iidx: val(*self._outer(iidx)))
+        else:
+            self.inner.update(lambda *iidx: cond(*self._outer(iidx)), lambda *iidx: val(*self._outer(iidx)))
+
+    def __repr__(self):
+        return 'AxisView(%r, %s)' % (self.inner, self.shape)
+
+
 class MShape(tuple):
     """shape of a masked copy: np.ones / np.zeros of it give a constant masked copy for the same mask"""
     masked = None
@@ -730,6 +755,8 @@ def getitem(a, key):
         while src < base.ndim:
             res_axes.append(src)
             src += 1
+        if isinstance(base, (Arr, View)) and base.ndim >= 1:
+            return AxisView(base, res_axes)
         f = base.snap()
         shape = tuple(1 if ax is None else base.shape[ax] for ax in res_axes)
         return Arr(shape, lambda *idx: f(*[idx[i] for i, ax in enumerate(res_axes) if ax is not None]), base.dtype)
@@ -2001,11 +2028,56 @@ class _NP(object):
     def finfo(self, t):
         return _Finfo()
 
-    def unique(self, a):
-        """sorted distinct values: only the LENGTH is modelled (1 <= u <= n, and u == 1 exactly when all entries are equal); entries are opaque"""
+    def searchsorted(self, a, v, side='left', sorter=None):
+        """insertion index of the scalar v into the 1-d array a (ASSUMED sorted, as numpy requires): an opaque index k with 0 <= k <= n,
+        a[i] < v (left) / a[i] <= v (right) for i < k and a[i] >= v (left) / a[i] > v (right) for i >= k"""
+        if sorter is not None or isinstance(v, (ArrBase, Masked, list, tuple)):
+            raise Unsupported('np.searchsorted with a sorter / array of values')
+        a = to_arr(a)
+        if a.ndim != 1 or side not in ('left', 'right'):
+            raise Unsupported('np.searchsorted form')
+        c = CTX()
+        n, f = a.shape[0], a.snap()
+        below, above = ('<', '>=') if side == 'left' else ('<=', '>')
+        if dim_conc(n):
+            k = 0
+            for i in range(n):
+                k = sym.add(k, ite(sym.cmp(below, f(i), v), 1, 0))
+            return k
+        k = c.fresh('ssorted', 'int')
+        c.assume(k >= 0, sym.cmp('<=', k, n))
+        c.skolems.append(k.t)
+        c.qfact('searchsorted-below', lambda i: sym.implies(sym.and_(i >= 0, sym.cmp('<', i, k)), sym.cmp(below, f(i), v)))
+        c.qfact('searchsorted-above', lambda i: sym.implies(sym.and_(sym.cmp('>=', i, k), sym.cmp('<', i, n)), sym.cmp(above, f(i), v)))
+        c.trace.append('np.searchsorted: the array is assumed sorted (numpy requires it)')
+        return k
+
+    def unique(self, a, return_index=False):
+        """sorted distinct values.  Without return_index only the LENGTH is modelled (1 <= u <= n, and u == 1 exactly when all entries are equal; entries opaque);
+        with return_index and at most 4 entries: exact, by forking the path on the comparisons of an insertion sort (first occurrence kept, as numpy does)"""
         a = to_arr(a)
         if a.ndim != 1:
             raise Unsupported('np.unique of an n-d array')
+        if return_index:
+            n, f = a.shape[0], a.snap()
+            if not dim_conc(n) or n > 4:
+                raise Unsupported('np.unique(return_index=True) of more than 4 / symbolically many entries')
+            vals = [f(i) for i in range(n)]
+            order = []
+            for i in range(n):
+                placed = False
+                for pos, j in enumerate(order):
+                    if bool(sym.cmp('==', vals[i], vals[j])):
+                        placed = True
+                        break
+                    if bool(sym.cmp('<', vals[i], vals[j])):
+                        order.insert(pos, i)
+                        placed = True
+                        break
+                if not placed:
+                    order.append(i)
+            uv = [vals[i] for i in order]
+            return (Arr((len(order),), lambda i: select(uv, i), a.dtype), Arr((len(order),), lambda i: select(list(order), i), 'int'))
         c = CTX()
         n, f = a.shape[0], a.snap()
         u = c.fresh('nunique', 'int')
